@@ -121,6 +121,72 @@ inductive WriteVia where
 def writeVia (typ : Nat) : WriteVia :=
   if typ = typeMMap then .copy else if typ = typeHolder then .writeTo else .illegal
 
+/-! ### writing a region through `Write`, any number of times
+
+  The property demands that a region is "writable through the provided writer" — for every write, not only the first:
+  the owner of a region re-generates its stub in place.  What decides whether a write goes through is the page
+  protection the previous write (or the acquisition) left behind. -/
+
+/-- protection of the pages of a region -/
+inductive Perm where
+  | rx     -- read + execute (the text segment; what memory.WriteTo restores)
+  | rwx    -- read + write + execute (the anonymous mapping of mmap_unix.go:18)
+  deriving DecidableEq, Repr
+
+/-- the protection a freshly acquired `Space` has: the mapping is created RWX (mmap_unix.go:18-19), the reserve is
+    part of the text segment -/
+def initPerm (typ : Nat) : Perm := if typ = typeMMap then .rwx else .rx
+
+/-- one `Write(s, data)` (space.go:45) on a region whose pages have protection `p`: `none` is a fault or an error,
+    otherwise the protection the write leaves behind.
+    * TypeMMap (space.go:47-49): a plain `copy` — faults unless the pages are writable; nothing touches the protection.
+    * TypeHolder (space.go:50-51): memory.WriteTo (mwrite_amd64.go:19-37) makes the pages RWX whatever they were,
+      copies, and restores R-X. -/
+def writeOnce (typ : Nat) (p : Perm) : Option Perm :=
+  match writeVia typ with
+  | .copy => if p = .rwx then some .rwx else none
+  | .writeTo => some .rx
+  | .illegal => none
+
+/-- `n` successive writes to the same region -/
+def writeN (typ : Nat) (p : Perm) : Nat → Option Perm
+  | 0 => some p
+  | n + 1 => match writeOnce typ p with
+    | none => none
+    | some p' => writeN typ p' n
+
+/-! ### concurrent writers on one page of the reserve (memory.WriteTo, mwrite_amd64.go:19)
+
+  Neighbouring reserve regions share a code page.  Each writer runs lock / mprotect RWX / copy / mprotect R-X / unlock
+  under `memoryAccessLock`; the page protection is shared state. -/
+
+inductive WPc where
+  | lock | unprotect | copy | reprotect | unlock | done
+  deriving DecidableEq, Repr
+
+structure WSt where
+  holder : Option Nat      -- who holds memoryAccessLock
+  perm : Perm              -- protection of the shared page
+  faulted : Bool           -- some copy hit a page that was not writable
+  pcs : List WPc
+
+/-- one micro-step of writer `i` (a writer waiting for the lock does not move) -/
+def wstep (s : WSt) (i : Nat) : WSt :=
+  match s.pcs[i]? with
+  | none => s
+  | some pc =>
+    match pc with
+    | .lock => if s.holder = none then { s with holder := some i, pcs := s.pcs.set i .unprotect } else s      -- :20 Lock()
+    | .unprotect => { s with perm := .rwx, pcs := s.pcs.set i .copy }                                         -- :24
+    | .copy => { s with faulted := s.faulted || decide (s.perm ≠ .rwx), pcs := s.pcs.set i .reprotect }      -- :31 copy
+    | .reprotect => { s with perm := .rx, pcs := s.pcs.set i .unlock }                                        -- :32
+    | .unlock => { s with holder := none, pcs := s.pcs.set i .done }                                          -- :21 deferred Unlock()
+    | .done => s
+
+def wrun (s : WSt) (σ : List Nat) : WSt := σ.foldl wstep s
+
+def winit (n : Nat) : WSt := ⟨none, .rx, false, List.replicate n .lock⟩
+
 /-- a sequential history of `Acquire` calls; each request carries the kernel's answer. Result: (requested, outcome) -/
 def runSeq (off min max : Nat) : List (Nat × Mmap) → List (Nat × Option Space)
   | [] => []
